@@ -1,11 +1,272 @@
+import GrafeoModel.Model.Graph
 import GrafeoModel.Driver.Proto
 
-/-! Stream `algo` (stub: filled in by the owner of this stream). Stateless lines. -/
+/-!
+Stream `algo` (C19). Stateless lines that carry the whole graph:
+
+  algo <op> <n> <edges> [<source>]      edges = `u>v:w,u>v:w,…` or `-`; nodes are `0 .. n-1`
+
+The driver computes each result with a simple **unverified reference search** (fuel-bounded
+relaxation / frontier growth), prints it in the canonical text form the harness uses for the real
+implementation's result (`model`), and runs the **verified checker** of `Model/Graph.lean` on the
+reference result together with the certificate the search produced: `spec = model` only when the
+checker accepts (so the printed specification value is backed by a theorem of `Props/C19.lean`),
+otherwise `spec = checker-rejects`.
+
+  dijkstra, bellman_ford   `v=d,…` sorted by node (`negcycle` for a reachable negative cycle)   checkSssp / checkNegCycle
+  sssp.agree               `agree` (Dijkstra and Bellman-Ford distance maps are equal)           checkSssp (uniqueness)
+  dijkstra.paths           `ok` (every reconstructed path is a walk of cost = distance)          checkSssp
+  bfs, dfs                 visited set, sorted                                                   checkReachOrder
+  bfs.layers               hop-distance layers `0|1,2|3`                                         checkSssp on unit weights
+  wcc, scc                 partition `0,1|2|3,4` (classes sorted, ordered by least element)      checkWcc / checkScc
+  topo                     `valid` / `none` (the harness checks the returned order)              checkTopo / checkCycle
+  kruskal                  `<#edges>:<weight>`; model = keep the FIRST edge per unordered node pair, then a minimum
+                           forest; spec = minimum spanning forest of the multigraph              checkSpanning (+ cycle property)
+  prim                     `<#edges>:<weight>` on the symmetrised store; model = tree of the start's component
+  prim.cover               `<#edges>` on the directed store; model = out-reachable set − 1, spec = component − 1
+-/
 namespace Grafeo.DriverAlgo
-open Grafeo.Proto
+open Grafeo.Proto Grafeo.Graph
+
+/-! ### parsing / printing -/
+
+def parseEdge (t : String) : Option Edge :=
+  match t.splitOn ">" with
+  | [a, rest] =>
+    match rest.splitOn ":" with
+    | [b, w] => do
+      let a ← a.toNat?
+      let b ← b.toNat?
+      let w ← w.toInt?
+      pure (a, b, w)
+    | _ => none
+  | _ => none
+
+def parseEdges (s : String) : Option (List Edge) :=
+  if s == "-" || s == "" then some [] else (s.splitOn ",").mapM parseEdge
+
+def insertNat (x : Nat) : List Nat → List Nat
+  | [] => [x]
+  | y :: ys => if y < x then y :: insertNat x ys else x :: y :: ys
+
+def sortNat (l : List Nat) : List Nat := l.foldr insertNat []
+
+def insertKey (q : Nat × Int) : List (Nat × Int) → List (Nat × Int)
+  | [] => [q]
+  | y :: ys => if y.1 < q.1 then y :: insertKey q ys else q :: y :: ys
+
+def showSet (l : List Nat) : String := if l.isEmpty then "-" else natList (sortNat l)
+
+def showDist (r : List (Nat × Int)) : String :=
+  if r.isEmpty then "-"
+  else joinWith "," ((r.foldr insertKey []).map fun q => s!"{q.1}={q.2}")
+
+def showClasses (cs : List (List Nat)) : String :=
+  if cs.isEmpty then "-" else joinWith "|" (cs.map fun c => natList (sortNat c))
+
+def iter {α : Type} (f : α → α) : Nat → α → α
+  | 0, a => a
+  | k + 1, a => iter f k (f a)
+
+/-! ### unverified reference searches (their results go through the verified checkers) -/
+
+/-- frontier growth: the nodes reachable from `s`, each appended when an in-neighbour is listed -/
+def reachOrder (es : List Edge) (s : Nat) : List Nat :=
+  iter (fun o => es.foldl (fun o e =>
+    if o.contains e.1 && !o.contains e.2.1 then o ++ [e.2.1] else o) o) (es.length + 1) [s]
+
+structure BF where
+  d : Array (Option Int)
+  p : Array (Option Edge)
+  changed : Option Nat := none
+
+def relaxRound (es : List Edge) (st : BF) : BF :=
+  es.foldl (fun st e =>
+    match st.d.getD e.1 none with
+    | none => st
+    | some du =>
+      let nd := du + e.2.2
+      let better := match st.d.getD e.2.1 none with
+        | none => true
+        | some dv => decide (nd < dv)
+      if better && e.2.1 < st.d.size then
+        { d := st.d.setIfInBounds e.2.1 (some nd), p := st.p.setIfInBounds e.2.1 (some e),
+          changed := some e.2.1 }
+      else st) { st with changed := none }
+
+/-- walk the predecessor function back from `x` until it returns to `x` (fuel), collecting the
+edges in forward order -/
+def collectCycle (p : Nat → Option Edge) (x : Nat) : Nat → Nat → List Edge → List Edge
+  | 0, _, acc => acc
+  | f + 1, cur, acc =>
+    match p cur with
+    | none => acc
+    | some e => if e.1 == x then e :: acc else collectCycle p x f e.1 (e :: acc)
+
+def cycleVia (p : Nat → Option Edge) (n start : Nat) : List Edge :=
+  let x := iter (fun v => match p v with
+    | some e => e.1
+    | none => v) n start
+  collectCycle p x (n + 1) x []
+
+/-- order the final distances so that every entry follows a tight predecessor -/
+def ssspOrder (es : List Edge) (s : Nat) (d : Array (Option Int)) : List (Nat × Int) :=
+  iter (fun o => es.foldl (fun o e =>
+    match o.lookup e.1 with
+    | none => o
+    | some du =>
+      if (o.lookup e.2.1).isNone && d.getD e.2.1 none == some (du + e.2.2)
+      then o ++ [(e.2.1, du + e.2.2)] else o) o) (es.length + 1) [(s, 0)]
+
+inductive SsspRef where
+  | dist (r : List (Nat × Int))
+  | neg (order : List Nat) (cyc : List Edge)
+
+/-- Bellman-Ford style relaxation with fuel `n`; a change in round `n + 1` means a reachable
+negative cycle, extracted from the predecessor edges -/
+def ssspRef (es : List Edge) (n s : Nat) : SsspRef :=
+  let init : BF := { d := (Array.replicate n none).setIfInBounds s (some 0), p := Array.replicate n none }
+  let st := iter (relaxRound es) n init
+  let st' := relaxRound es st
+  match st'.changed with
+  | none => .dist (ssspOrder es s st.d)
+  | some v => .neg (reachOrder es s) (cycleVia (fun x => st'.p.getD x none) n v)
+
+def wccClasses (es : List Edge) (n : Nat) : List (List Nat) :=
+  (List.range n).foldl (fun cls v =>
+    if cls.any (fun c => c.contains v) then cls else cls ++ [reachOrder (sym es) v]) []
+
+def sccCert (es : List Edge) (n : Nat) : List (List Nat × List Nat) :=
+  (List.range n).foldl (fun cert v =>
+    if cert.any (fun fb => (sccClass fb).contains v) then cert
+    else cert ++ [(reachOrder es v, reachOrder (rev es) v)]) []
+
+/-- naive Kahn: repeatedly place the least unplaced node all of whose in-edges come from placed
+nodes -/
+def topoRef (es : List Edge) (n : Nat) : List Nat :=
+  iter (fun placed =>
+    match (List.range n).find? (fun v => !placed.contains v &&
+        es.all (fun e => e.2.1 != v || placed.contains e.1)) with
+    | some v => placed ++ [v]
+    | none => placed) n []
+
+def insertEdge (e : Edge) : List Edge → List Edge
+  | [] => [e]
+  | y :: ys => if y.2.2 ≤ e.2.2 then y :: insertEdge e ys else e :: y :: ys
+
+/-- stable sort by weight -/
+def sortEdges (es : List Edge) : List Edge := es.foldr insertEdge []
+
+/-- greedy forest over edges already sorted by weight, with component labels -/
+def forestRef (n : Nat) (sorted : List Edge) : List Edge :=
+  (sorted.foldl (fun (acc : Array Nat × List Edge) e =>
+    let a := acc.1.getD e.1 0
+    let b := acc.1.getD e.2.1 0
+    if a == b then acc else (acc.1.map (fun l => if l == b then a else l), acc.2 ++ [e]))
+    (Array.range n, [])).2
+
+/-- `kruskal`'s edge collection: nodes ascending, each node's out-edges in creation order, and an
+edge is dropped when its unordered node pair was already seen (first one wins, not the lightest) -/
+def kruskalCollect (es : List Edge) (n : Nat) : List Edge :=
+  ((List.range n).flatMap fun i => es.filter fun e => e.1 == i).foldl (fun acc e =>
+    if acc.any (fun f => (f.1 == e.1 && f.2.1 == e.2.1) || (f.1 == e.2.1 && f.2.1 == e.1))
+    then acc else acc ++ [e]) []
+
+def conn (t : List Edge) (u v : Nat) : Bool := (reachOrder (sym t) u).contains v
+
+def showForest (t : List Edge) : String := s!"{t.length}:{totalWeight t}"
+
+/-- minimum spanning forest of the multigraph: reference + verified spanning check + executable
+cycle property -/
+def msfSpec (es : List Edge) (n : Nat) : String :=
+  let t := forestRef n (sortEdges es)
+  if checkSpanning es n t (wccClasses t n) && checkCycleProperty conn es t then showForest t
+  else "checker-rejects"
+
+/-! ### handler -/
+
+def mk (m s sig : String) : Proto.Out := { model := m, spec := s, sig := if m == s then "-" else sig }
+
+/-- `spec = model` only if the verified checker accepted the reference result -/
+def certified (m : String) (accepted : Bool) : Proto.Out :=
+  mk m (if accepted then m else "checker-rejects") "checker-rejects"
+
+def wellFormed (es : List Edge) (n : Nat) : Bool := es.all fun e => e.1 < n && e.2.1 < n
+
+def ssspOut (es : List Edge) (n s : Nat) : Proto.Out :=
+  match ssspRef es n s with
+  | .dist r => certified (showDist r) (checkSssp es s r)
+  | .neg order cyc => certified "negcycle" (checkNegCycle es s order cyc)
+
+def layersOut (es : List Edge) (n s : Nat) : Proto.Out :=
+  match ssspRef (unit es) n s with
+  | .dist r =>
+    let layers := ((List.range n).map fun (k : Nat) =>
+      (r.filter fun q => q.2 == Int.ofNat k).map Prod.fst).takeWhile fun l => !l.isEmpty
+    certified (showClasses layers) (checkSssp (unit es) s r)
+  | .neg _ _ => certified "?" false
 
 def handle (args : List String) : Option Proto.Out :=
   match args with
+  | [op, n, edges, src] => do
+    let n ← n.toNat?
+    let es ← parseEdges edges
+    let s ← src.toNat?
+    if !wellFormed es n then none
+    else if s ≥ n then
+      -- a source that is not a node: the implementation returns an empty result; unconstrained
+      if ["dijkstra", "bellman_ford", "bfs", "dfs", "bfs.layers"].contains op then pure { model := "-" }
+      else if op == "prim" then pure { model := "0:0" }
+      else if op == "prim.cover" then pure { model := "0" }
+      else if op == "sssp.agree" then pure { model := "agree" }
+      else if op == "dijkstra.paths" then pure { model := "ok" }
+      else none
+    else if op == "dijkstra" || op == "bellman_ford" then pure (ssspOut es n s)
+    else if op == "sssp.agree" then
+      match ssspRef es n s with
+      | .dist r => pure (certified "agree" (checkSssp es s r))
+      | .neg _ _ => none
+    else if op == "dijkstra.paths" then
+      match ssspRef es n s with
+      | .dist r => pure (certified "ok" (checkSssp es s r))
+      | .neg _ _ => none
+    else if op == "bfs" || op == "dfs" then
+      let o := reachOrder es s
+      pure (certified (showSet o) (checkReachOrder es s o))
+    else if op == "bfs.layers" then pure (layersOut es n s)
+    else if op == "prim" then
+      -- the harness stores every listed edge in both directions for this op
+      let comp := reachOrder (sym es) s
+      let inside := es.filter fun e => comp.contains e.1
+      let t := forestRef n (sortEdges inside)
+      pure (mk (showForest t) (msfSpec es n) "prim-single-component")
+    else if op == "prim.cover" then
+      let out := reachOrder es s
+      let comp := reachOrder (sym es) s
+      let spec := if checkReachOrder (sym es) s comp then toString (comp.length - 1) else "checker-rejects"
+      pure (mk (toString (out.length - 1)) spec "prim-ignores-incoming-edges")
+    else none
+  | [op, n, edges] => do
+    let n ← n.toNat?
+    let es ← parseEdges edges
+    if !wellFormed es n then none
+    else if op == "wcc" then
+      let cls := wccClasses es n
+      pure (certified (showClasses cls) (checkWcc es n cls))
+    else if op == "scc" then
+      let cert := sccCert es n
+      pure (certified (showClasses (cert.map sccClass)) (checkScc es n cert))
+    else if op == "topo" then
+      let order := topoRef es n
+      if order.length == n then pure (certified "valid" (checkTopo es n order))
+      else
+        let pred := fun v => es.find? fun e => e.2.1 == v && !order.contains e.1
+        let start := ((List.range n).find? fun v => !order.contains v).getD 0
+        pure (certified "none" (checkCycle es (cycleVia pred n start)))
+    else if op == "kruskal" then
+      let t := forestRef n (sortEdges (kruskalCollect es n))
+      pure (mk (showForest t) (msfSpec es n) "kruskal-parallel-edges")
+    else none
   | _ => none
 
 end Grafeo.DriverAlgo
